@@ -1,6 +1,7 @@
 import Driver.C02Mon
 import OidcModel.Generated.RPVerifier
 import OidcModel.Generated.VerifiersC02
+import OidcModel.Generated.ProviderC02
 open Kv Drv
 
 namespace Drv.C02
@@ -102,7 +103,20 @@ def endpointModel (l : Line) (now : Int) : Bool :=
   let iss := str l "v.iss"
   let p0 : C02Provider := { accessTokenKeySet := ks, idTokenHinKeySet := ks, tokenOf := fun _ => t, jtiOf := fun _ => str l "t.jti" }
   let p : C02Provider :=
-    if has l "v.cfg" then
+    if has l "cfg.n" then
+      -- part 7: the provider the REGENERATED `NewProvider` builds from the storage and the option list of the construction call
+      -- (the regenerated options; an option that concerns neither verifier: `WithAllowInsecure`)
+      let opts : List C02Option := (parseCfg l).map fun o =>
+        match o with
+        | .atKeySet k => GenC02.WithAccessTokenKeySet now k
+        | .hintKeySet k => GenC02.WithIDTokenHintKeySet now k
+        | .atAlgs ls => GenC02.WithAccessTokenVerifierOpts now (ls.map (GenC02.WithSupportedAccessTokenSigningAlgorithms now))
+        | .hintAlgs ls => GenC02.WithIDTokenHintVerifierOpts now (ls.map (GenC02.WithSupportedIDTokenHintSigningAlgorithms now))
+        | .other => fun o => .ok { o with insecure := true }
+      match GenC02P.NewProvider now {} { keySet := .ok ks.keys } (fun _ => .ok (fun _ => iss)) opts with
+      | .ok q => { q with tokenOf := fun _ => t, jtiOf := fun _ => str l "t.jti" }
+      | .error _ => p0
+    else if has l "v.cfg" then
       match GenC02.WithAccessTokenVerifierOpts now [GenC02.WithSupportedAccessTokenSigningAlgorithms now algs] p0 with
       | .ok p1 =>
         match GenC02.WithIDTokenHintVerifierOpts now [GenC02.WithSupportedIDTokenHintSigningAlgorithms now algs] p1 with
